@@ -16,7 +16,7 @@ import (
 // to a byte range with start <= end inside the target string.
 
 func TestVerif(t *testing.T) {
-	vrep.Main(t, "github.com/google/licenseclassifier/stringclassifier/searchset", map[string]vrep.Harness{"c17_candidates": c17Candidates})
+	vrep.Main(t, "github.com/google/licenseclassifier/stringclassifier/searchset", map[string]vrep.Harness{"c17_candidates": c17Candidates, "c17_large": c17Large})
 }
 
 func c17Pair(source, target string) string {
@@ -100,6 +100,64 @@ func c17Candidates(c *vrep.Ctx) {
 		}
 		if m := r.Note["msg"].(string); m != "" {
 			c.Violate(fmt.Sprintf("c17_candidates:%q|%q", r.Note["s"], r.Note["t"]), fmt.Sprintf("source %q target %q: %s", r.Note["s"], r.Note["t"], m), r, m)
+		}
+	})
+}
+
+
+// c17Large: targets of more than 2^16 (and 2^17) tokens. The source is A + 5 unrelated words + B
+// (30 distinct words each); the target is a long run of filler words with A and B planted at
+// positions on both sides of, and straddling, the multiples of 65536 (token positions, offsets and
+// counts that are packed, truncated or narrowed somewhere only show there).
+func c17Large(c *vrep.Ctx) {
+	word := func(p string, i int) string { return p + string(rune('a'+i%26)) + string(rune('a'+(i/26)%26)) }
+	var a, b, gap []string
+	for i := 0; i < 30; i++ {
+		a = append(a, word("a", i))
+		b = append(b, word("b", i))
+	}
+	for i := 0; i < 5; i++ {
+		gap = append(gap, word("g", i))
+	}
+	source := strings.Join(a, " ") + " " + strings.Join(gap, " ") + " " + strings.Join(b, " ")
+	sizes := []int{66000, 140000}
+	c.R.Rule = fmt.Sprintf("targets of %v filler tokens (all distinct) with the two halves A, B of a 65-token source planted at every pair of positions from a menu around 0, 2000, 65536 and 131072 (before, straddling, after), in both orders; the candidates of FindPotentialMatches are checked as in c17_candidates (non-empty, target order, token bounds, byte range start<=end inside the target); non-trivial = cases with a candidate", sizes)
+	var cases [][3]int
+	for si, n := range sizes {
+		pos := []int{0, 2000, 65500, 65521, 65536, 65636}
+		if n > 131200 {
+			pos = append(pos, 131060, 131072, 131100)
+		}
+		for _, pa := range pos {
+			for _, pb := range pos {
+				if pa != pb && (pa+40 < pb || pb+40 < pa) {
+					cases = append(cases, [3]int{si, pa, pb})
+				}
+			}
+		}
+	}
+	c.Bound("cases", len(cases))
+	body := func(r *vx.Run) {
+		cs := cases[r.Choose(len(cases), "case")]
+		if r.Scout() {
+			return
+		}
+		n, pa, pb := sizes[cs[0]], cs[1], cs[2]
+		toks := make([]string, n)
+		for i := range toks {
+			toks[i] = "f" + string(rune('a'+i%26)) + string(rune('a'+(i/26)%26)) + string(rune('a'+(i/676)%26)) + string(rune('a'+(i/17576)%26))
+		}
+		copy(toks[pa:], a)
+		copy(toks[pb:], b)
+		msg := c17Pair(source, strings.Join(toks, " "))
+		r.Note = map[string]interface{}{"id": fmt.Sprintf("target of %d tokens, A at %d, B at %d", n, pa, pb), "msg": msg}
+	}
+	c.Run(c.Explorer(0), body, func(r *vx.Run) {
+		id := r.Note["id"].(string)
+		c.Nontrivial(id)
+		c.Sample(id)
+		if m := r.Note["msg"].(string); m != "" {
+			c.Violate("c17_large:"+strings.ReplaceAll(id, " ", "_"), id+": "+m, r, m)
 		}
 	})
 }
